@@ -271,7 +271,7 @@ def random_spec(rng, **o):
     nc = g('nc', int(rng.integers(3, 9)))
     nt = g('nt', int(rng.integers(2, 6)))
     nsw = g('nsw', int(rng.integers(3, 8)))
-    ns = max(g('ns', int(rng.integers(max(6, nt + 2), 40))), nt + 1)
+    ns = max(o['ns'] if 'ns' in o else int(rng.integers(max(6, nt + 2), max(40, nt + 10))), nt + 1)
     s.names = g('names', 'ks')
     s.vec2d = g('vec2d', False)
     s.sample_rate = float(g('rate', [1., 100., 30000.][int(rng.integers(0, 3))]))
